@@ -610,8 +610,14 @@ def rule_coh_grid(ctx: Ctx) -> None:
     ctx.check(gr is not None and norm(gr.func).endswith('partition_grad_receivers') and [norm(a) for a in gr.args] == ['self.world_size', 'self.grad_workers'], 'COH-GRID', init,
               'receiver groups = partition_grad_receivers(world_size, grad_workers)', 'grad_receiver_ranks', f'grad_receiver_ranks is {norm(gr) if gr is not None else None}', gr or init.node)
     ia = assigned('self._inv_assignments')
+    def _rows_of_workers(e: ast.expr) -> bool:
+        # [list(v) for v in grad_worker_ranks] / [sorted(v) ...], whatever the comprehension variable is called
+        if not (isinstance(e, ast.ListComp) and len(e.generators) == 1 and not e.generators[0].ifs and isinstance(e.generators[0].target, ast.Name)):
+            return False
+        g_ = e.generators[0]
+        return norm(g_.iter) == 'grad_worker_ranks' and norm(e.elt) in (f'list({g_.target.id})', f'sorted({g_.target.id})')
     ok = ia is not None and norm(ia.func).endswith('greedy_assignment') and len(ia.args) >= 4 and norm(ia.args[0]) == 'work' \
-        and norm(ia.args[1]) in ('[list(ranks) for ranks in grad_worker_ranks]', '[sorted(ranks) for ranks in grad_worker_ranks]') \
+        and _rows_of_workers(ia.args[1]) \
         and norm(ia.args[2]) == 'self.world_size' and norm(ia.args[3]) == 'self.colocate_factors'
     ctx.check(ok, 'COH-GRID', init, 'greedy assignment is confined to the gradient-worker groups (columns)', '_inv_assignments',
               f'inverse workers are assigned by {norm(ia)[:140] if ia is not None else None}; the candidate groups must be the gradient-worker groups', ia or init.node)
@@ -624,13 +630,15 @@ def rule_coh_grid(ctx: Ctx) -> None:
             atoms = [(norm(a), pol) for g in flow.enclosing_guards(p, init, st) for a, pol in conjuncts(g.test, g.polarity)]
             loops = [lp for lp in flow.enclosing_loops(p, init, st) if isinstance(lp, ast.For)]
             v = st.value
-            if (f'{member} in ranks', True) in atoms and any(norm(lp.iter) == tab and norm(lp.target) == 'ranks' for lp in loops) \
+            lvars = [norm(lp.target) for lp in loops if norm(lp.iter) == tab and isinstance(lp.target, ast.Name)]
+            lv_ = next((x for x in lvars if (f'{member} in {x}', True) in atoms), None)
+            if lv_ is not None \
                     and isinstance(v, ast.Call) and norm(v.func) == '_Group' and sorted(k.arg or '' for k in v.keywords) == ['group', 'ranks'] \
                     and norm(st.targets[0].slice) == 'layer':
                 kws = {k.arg: k.value for k in v.keywords}
                 h = kws['group']
                 # the handle is looked up, under the very rank set stored, in a local table (whatever it is called)
-                if norm(kws['ranks']) == 'ranks' and isinstance(h, ast.Subscript) and isinstance(h.value, ast.Name) and norm(h.slice) == 'ranks':
+                if norm(kws['ranks']) == lv_ and isinstance(h, ast.Subscript) and isinstance(h.value, ast.Name) and norm(h.slice) == lv_:
                     good = True
                     handle_tables.add(h.value.id)
         if not good and member == 'self.local_rank':
